@@ -1,4 +1,5 @@
 import GqlProofs.Parser.Results
+import GqlProofs.Parser.SoundTop
 /-
   C16 — the token limit is exact, monotone and bounds the work.
 
@@ -44,20 +45,37 @@ theorem C16_monotone_query (L L' : Nat) (inp : Bytes) (d : QueryDoc) (h0 : L ≠
     (h : parseQuery L inp = .ok d) : parseQuery L' inp = .ok d :=
   ofRun_mono (stricter_le h0 hle) _ _ d h
 
-/- FULL STATEMENT (not finished):
+/-- the link between the counter of the unlimited parse and the lexer: a successful parse consumes
+    every non-EOF token of `Lexer.lexAll inp` (comments included) exactly once and never the EOF
+    token.  (`countTokens inp` = number of non-EOF tokens of `lexAll inp`; proved through the
+    parser-state ↔ token-stream invariant of `GqlProofs/Parser/Stream.lean` and the per-program
+    specifications of `SoundQuery.lean`, each of which states "no EOF token consumed".) -/
+theorem C16_count_is_lexer_count_query (inp : Bytes) (d : QueryDoc) (h : parseQuery 0 inp = .ok d) :
+    (runQuery 0 inp).2.tokenCount = countTokens inp := by
+  obtain ⟨raw, eof, h1, h2, h3, h4, _⟩ := parseQuery_sound inp d h
+  rw [h4, countTokens_of_done h1 h2 h3]
 
-     theorem C16_limit_exact_query (L : Nat) (inp : Bytes) (hL : L ≠ 0) :
-       (parseQuery L inp).isOk = true ↔ (parseQuery 0 inp).isOk = true ∧ countTokens inp ≤ L
+/-- **exact**: under a limit `L ≠ 0` the parse succeeds iff the unlimited parse succeeds and the
+    input has at most `L` lexer tokens (comments included, EOF excluded) -/
+theorem C16_limit_exact_query (L : Nat) (inp : Bytes) (hL : L ≠ 0) :
+    (parseQuery L inp).isOk = true ↔ (parseQuery 0 inp).isOk = true ∧ countTokens inp ≤ L := by
+  have key : (parseQuery L inp).isOk = true ↔
+      (parseQuery 0 inp).isOk = true ∧ (runQuery 0 inp).2.tokenCount ≤ L := ofRun_exact hL _ 0 inp
+  rw [key]
+  have hcount : (parseQuery 0 inp).isOk = true → (runQuery 0 inp).2.tokenCount = countTokens inp := by
+    intro hok
+    cases hp : parseQuery 0 inp with
+    | ok d => exact C16_count_is_lexer_count_query inp d hp
+    | error e => rw [hp] at hok; cases hok
+    | outOfFuel => rw [hp] at hok; cases hok
+  constructor
+  · intro ⟨hok, hle⟩
+    exact ⟨hok, by rw [← hcount hok]; exact hle⟩
+  · intro ⟨hok, hle⟩
+    exact ⟨hok, by rw [hcount hok]; exact hle⟩
 
-   where `countTokens inp` is the number of non-EOF tokens (comments included) of `Lexer.lexAll inp`.
-   What is proved below (`…_partial`) is the same equivalence with `(runQuery 0 inp).2.tokenCount`
-   — the number of tokens the *unlimited parse* consumed — in place of `countTokens inp`.  The
-   missing link is the grammar-specific fact that a successful parse consumes every non-EOF token
-   exactly once and never the EOF token:
-       parseQuery 0 inp = .ok d → (runQuery 0 inp).2.tokenCount = countTokens inp
-   (needs a lexer-position invariant tying `pulls` to `lexAll`, plus "no call site consumes EOF
-   without setting the error" per parse function).  The correspondence run checks exactly this on
-   the Go side: for every corpus input with n lexer tokens, limit n succeeds and n-1 fails. -/
+/- The `_partial` version below is the same equivalence with `(runQuery 0 inp).2.tokenCount` — the
+   number of tokens the *unlimited parse* consumed — in place of `countTokens inp`. -/
 
 /-- exact (partial, see above): under `L ≠ 0` the parse succeeds iff the unlimited parse succeeds
     and consumed at most `L` tokens -/
@@ -140,3 +158,5 @@ example : (runSchema 0 0 [116,121,112,101,32,65,123,97,58,66,125]).2.tokenCount 
 example : (parseSchema 6 [116,121,112,101,32,65,123,97,58,66,125]).isOk = false := by decide
 -- a state with the error set exists (hypothesis of `C16_error_sticky`)
 example : ((run 1 (parseQueryDocument 5) (PState.init 0 [123, 97, 125])).2.err.isSome) = true := by decide
+#print axioms C16_count_is_lexer_count_query
+#print axioms C16_limit_exact_query
